@@ -29,6 +29,8 @@ def call_builtin(I, name, args, kwargs, env):
         if isinstance(x, SSeq):
             return I.pipes.observable(x, 'len')
         if isinstance(x, XList):
+            if I.recording is not None:
+                I.read_lists.append(x)
             total = 0
             for kind, seg in x.segments():
                 n = I.pipes.observable(seg, 'len') if kind == 'pipe' else len(seg)
